@@ -10,12 +10,20 @@ import Keto.Proofs.EngineSound
 
 namespace Keto
 
-/-- The depth guards, depth arguments and `skipDirect` literals of every recursive
-    call in engine.go / rewrites.go are the ones `Keto.build` encodes (regenerated
-    from the sources on every run). -/
+/-- The depth tests, depth arguments and `skipDirect` literals of every recursive call in
+    engine.go / rewrites.go MEAN what `Keto.build` encodes: the conditions and arguments are translated
+    from the Go expressions on every run (`Facts.cond<i>`, `Facts.arg<i>`) and compared as functions
+    on `Int`; the sites are compared as tables. -/
 theorem C01_depth_sites_tie :
-    Facts.depthGuards = FactsTie.expectedDepthGuards ∧ Facts.depthCalls = FactsTie.expectedDepthCalls :=
-  ⟨FactsTie.depthGuards_tie, FactsTie.depthCalls_tie⟩
+    (∀ g r : Int, Facts.cond0 g r = decide (r ≤ 0 ∨ g < r)) ∧
+    (∀ d : Int, Facts.cond1 d = decide (d ≤ 0) ∧ Facts.cond2 d = decide (d ≤ 0) ∧ Facts.cond3 d = decide (d ≤ 0) ∧
+      Facts.cond4 d = decide (d ≤ 0)) ∧
+    (∀ d : Int, Facts.cond5 d = decide (d < 0) ∧ Facts.cond6 d = decide (d < 0) ∧ Facts.cond7 d = decide (d < 0)) ∧
+    (∀ d : Int, Facts.arg3 d = d - 1 ∧ Facts.arg4 d = d - 1 ∧ Facts.arg5 d = d - 1 ∧ Facts.arg8 d = d - 1 ∧
+      Facts.arg14 d = d - 1 ∧ Facts.arg15 d = d - 1) ∧
+    (Facts.depthArgs == FactsTie.expectedArgSites) = true ∧ (FactsTie.callLits == FactsTie.expectedCallLits) = true :=
+  ⟨fun g r => (FactsTie.clamp_sem g r).1, FactsTie.guards_le0_sem, FactsTie.guards_lt0_sem, FactsTie.args_minus1_sem,
+   FactsTie.argSites_tie, FactsTie.callLits_tie⟩
 
 /-- Soundness, positive fragment: for every configuration without `!`, every store, every depth/width limits,
     every fault oracle, every fuel: an `isMember` answer implies membership in the Zanzibar semantics. -/
